@@ -67,7 +67,7 @@ def run(ctx):
         ctx.case(nt, {"rule": text} if nt else None)
         cls = classify(r)
         if "ok" not in rep:
-            viol("C09/parse-fails/%s%s" % (r["kind"], cls), "ParseRules failed on `%s`: %s" % (text, rep.get("error") or rep.get("panic") or rep), {"text": text})
+            viol(("C09/parse-fails/%s" % r["kind"]) if not cls else ("C09" + cls), "ParseRules failed on `%s`: %s" % (text, rep.get("error") or rep.get("panic") or rep), {"text": text})
             continue
         ok = rep["ok"]
         if ok.get("validate_error"):
@@ -80,7 +80,7 @@ def run(ctx):
         p0 = parsed[0]
         diffs = rulegen.compare_intent(r, p0["kind"], p0["fields"])
         if diffs:
-            viol(("C09/parse-differs-from-text/%s/%s" % (r["kind"], diffs[0].split(":")[0])) if not cls else ("C09/parse-differs-from-text" + cls),
+            viol(("C09/parse-differs-from-text/%s/%s" % (r["kind"], diffs[0].split(":")[0])) if not cls else (("C09/parse-differs-from-text" + cls) if "bare" in cls else ("C09" + cls)),
                  "`%s` was read as %s" % (text, "; ".join(diffs)[:300]), {"text": text, "parsed": p0})
             continue
         second.append((r, p0))
@@ -106,6 +106,25 @@ def run(ctx):
                  "`%s` printed as `%s` parsed back differently in %s: %r vs %r" % (rulegen.canon(r), t1, d, [a.get(k) for k in d], [b.get(k) for k in d]), {"text": t1})
         elif p1["text"] != t1:
             viol("C09/reprint-differs/%s%s" % (r["kind"], cls), "print(parse(print)) differs: `%s` vs `%s`" % (t1, p1["text"]), {"text": t1})
+    # --- same rules again, interleaved with profile-file parses in the same process ---------
+    plain = [{"id": i, "do": "rules", "text": "  " + rulegen.canon(r) + "\n\n"} for i, r in enumerate(rules)]
+    FILES = ["# only line rules\ninclude <tunables/global>\n@{exec_path} = @{bin}/foo\nprofile foo @{exec_path} {\n  include if exists <local/foo>\n}\n",
+             "abi <abi/4.0>,\n\ninclude <tunables/global>\n\n@{exec_path} = @{bin}/bar\n@{exec_path} += @{lib}/bar\nprofile bar @{exec_path} flags=(complain) {\n  include if exists <local/bar>\n}\n",
+             "# tunable\n@{lib_dirs} = @{lib}/x @{lib}/y\n"]
+    mixed = []
+    for i, rq in enumerate(plain):
+        if i % 3 == 0:
+            mixed.append({"id": "f%d" % i, "do": "file", "text": FILES[(i // 3) % len(FILES)]})
+        mixed.append(rq)
+    r1 = batched(ctx, plain)
+    r2 = [x for x in batched(ctx, mixed) if not str(x.get("id", "")).startswith("f")]
+    for r, a, b in zip(rules, r1, r2):
+        ctx.case(None)
+        ka = json_key(a)
+        kb = json_key(b)
+        if ka != kb:
+            viol("C09/carried-parser-state/%s" % r["kind"], "`%s` parses differently after a profile file was parsed in the same process: %s vs %s" % (
+                rulegen.canon(r), kb[:200], ka[:200]), {"text": rulegen.canon(r)})
     # --- blocks ---------------------------------------------------------------------------
     blocks = []
     for i in range(n_blocks):
@@ -116,9 +135,27 @@ def run(ctx):
     reps = batched(ctx, reqs)
     second = []
     for bl, rep in zip(blocks, reps):
+        bcls = next((classify(r) for r in bl if classify(r) == "/equals-in-path"), "")
         if "ok" not in rep:
             ctx.case(None)
-            viol("C09/block/pipeline-fails", "Merge+Sort+Format failed: %s" % (rep.get("error") or rep.get("panic")), {"block": [rulegen.canon(r) for r in bl]})
+            viol("C09/block/pipeline-fails" if not bcls else "C09" + bcls, "Merge+Sort+Format failed: %s" % (rep.get("error") or rep.get("panic")), {"block": [rulegen.canon(r) for r in bl]})
+            continue
+        parsed = rep["ok"]["parsed"]
+        if len(parsed) != len(bl):
+            ctx.case(None)
+            viol("C09/block/parse-rule-count" if not bcls else "C09" + bcls, "a paragraph of %d rules was read as %d rules:\n%s" % (len(bl), len(parsed), "\n".join(rulegen.canon(r) for r in bl)),
+                 {"block": [rulegen.canon(r) for r in bl]})
+            continue
+        bad = None
+        for r, p0 in zip(bl, parsed):
+            d = rulegen.compare_intent(r, p0["kind"], p0["fields"])
+            if d and classify(r) != "/bare-keyword-with-comment":
+                bad = (r, d)
+                break
+        if bad:
+            ctx.case(None)
+            viol(("C09/block/parse-differs-from-text/%s" % bad[0]["kind"]) if not bcls else "C09" + bcls, "in a paragraph, `%s` was read as %s" % (rulegen.canon(bad[0]), bad[1]),
+                 {"block": [rulegen.canon(r) for r in bl]})
             continue
         second.append((bl, rep["ok"]))
     reqs = [{"id": i, "do": "rules", "text": ok["text"] + "\n", "pipeline": ["format"]} for i, (bl, ok) in enumerate(second)]
@@ -152,6 +189,13 @@ def run(ctx):
     ctx.extra.update({"rules": len(rules), "blocks": n_blocks, "files": n_files})
 
 
+def json_key(rep):
+    import json
+    if "ok" in rep:
+        return json.dumps([(x["kind"], rulegen.normalise_fields(x["kind"], x["fields"]) if isinstance(x["fields"], dict) else None) for x in rep["ok"]["parsed"]], sort_keys=True)
+    return "ERR:" + str(rep.get("error") or rep.get("panic"))
+
+
 def batched(ctx, reqs, size=2000):
     chunks = [reqs[i:i + size] for i in range(0, len(reqs), size)]
     out = []
@@ -169,6 +213,8 @@ def classify(r):
     """Input-predicate suffix for finding keys (keeps recorded findings narrow)."""
     if r["kind"] == "mqueue" and not r.get("Name"):
         return "/no-name"
+    if any("=" in str(r.get(k, "")) for k in ("Path", "Target", "Source", "MountPoint", "OldRoot", "NewRoot", "Exec")):
+        return "/equals-in-path"
     if r.get("Comment"):
         bare = dict(r)
         bare["Comment"] = ""
